@@ -65,3 +65,117 @@ Print Assumptions C04_after_means_strictly_later.
 Theorem C04_code_after_filter : forall p o t n, gen_processor_isOpAfter p o t n = op_after t n o.
 Proof. exact processor_isOpAfter_tie. Qed.
 Print Assumptions C04_code_after_filter.
+
+From SV Require Import Resolve.Op Resolve.Apply Resolve.Process Resolve.Order Resolve.Terminal Resolve.Extend Resolve.Intake Resolve.IntakeTerminal.
+Local Close Scope Z_scope.
+
+(* once the anchored history deactivates the DID the handler's decorator refuses every non-create request, whatever is anchored afterwards and whatever is pending; only hypotheses: the operation store returns anchored operations, the later operations are not anchored before the stored ones *)
+Theorem C04_deactivated_refuses_forever :
+  forall (pub later unpub : list aop) (c0 : aop) (s : state) (ap : list aop),
+         Forall (fun o : aop => published o = true) pub ->
+         (forall a b : aop, In a pub -> In b later -> op_le a b) ->
+         resolve_full pub [] no_opts = inr (Some (c0, s, ap)) ->
+         deact s = true -> decorate (pub ++ later) unpub = Refused.
+Proof. exact deactivated_refuses_forever_strong. Qed.
+Print Assumptions C04_deactivated_refuses_forever.
+
+(* the same starting from the outcome of Resolve on the anchored history *)
+Theorem C04_deactivated_refuses_forever_resolve :
+  forall (pub later unpub : list aop) (r : result),
+         Forall (fun o : aop => published o = true) pub ->
+         (forall a b : aop, In a pub -> In b later -> op_le a b) ->
+         resolve pub [] no_opts = OOk r ->
+         deact (r_state r) = true -> decorate (pub ++ later) unpub = Refused.
+Proof. exact deactivated_refuses_forever_resolve. Qed.
+Print Assumptions C04_deactivated_refuses_forever_resolve.
+
+(* the composition with Terminal.deactivate_terminal as it stands (with its key_inj and no_zero_reveal hypotheses, which the strong form shows to be unnecessary) *)
+Theorem C04_deactivated_refuses_forever_terminal_hyps :
+  forall (pub later unpub : list aop) (c0 : aop) (s : state) (ap : list aop),
+         Forall (fun o : aop => published o = true) pub ->
+         key_inj (pub ++ later) ->
+         (forall a b : aop, In a pub -> In b later -> op_le a b) ->
+         no_zero_reveal (pub ++ later ++ unpub) ->
+         resolve_full pub [] no_opts = inr (Some (c0, s, ap)) ->
+         deact s = true -> decorate (pub ++ later) unpub = Refused.
+Proof. exact deactivated_refuses_forever. Qed.
+Print Assumptions C04_deactivated_refuses_forever_terminal_hyps.
+
+(* deactivation is terminal for resolve_full without key_inj and no_zero_reveal *)
+Theorem C04_deactivate_terminal_strong :
+  forall (pub later unpub : list aop) (c0 : aop) (s : state) (ap : list aop),
+         Forall (fun o : aop => published o = true) pub ->
+         (forall a b : aop, In a pub -> In b later -> op_le a b) ->
+         resolve_full pub [] no_opts = inr (Some (c0, s, ap)) ->
+         deact s = true -> resolve_full (pub ++ later) unpub no_opts = inr (Some (c0, s, ap)).
+Proof. exact deactivate_terminal_strong. Qed.
+Print Assumptions C04_deactivate_terminal_strong.
+
+(* core form: operations processed after an anchored history that deactivates the DID change nothing *)
+Theorem C04_deactivate_terminal_core_strong :
+  forall (fops ext : list aop) (c0 : aop) (s : state) (ap : list aop),
+         Forall (fun o : aop => published o = true) fops ->
+         resolve_core fops = inr (Some (c0, s, ap)) ->
+         deact s = true -> resolve_core (fops ++ ext) = inr (Some (c0, s, ap)).
+Proof. exact deactivate_terminal_core_strong. Qed.
+Print Assumptions C04_deactivate_terminal_core_strong.
+
+(* the outcome the handler sees stays the deactivated one: same state (empty document, no commitments), same applied operations *)
+Theorem C04_deactivated_stays_deactivated :
+  forall (pub later unpub : list aop) (c0 : aop) (s : state) (ap : list aop),
+         Forall (fun o : aop => published o = true) pub ->
+         (forall a b : aop, In a pub -> In b later -> op_le a b) ->
+         resolve_full pub [] no_opts = inr (Some (c0, s, ap)) ->
+         deact s = true ->
+         exists r : result,
+           resolve (pub ++ later) unpub no_opts = OOk r /\
+           r_state r = s /\ doc s = Some [] /\ upd s = 0%Z /\ rec s = 0%Z /\ r_applied r = map oid ap.
+Proof. exact deactivated_stays_deactivated. Qed.
+Print Assumptions C04_deactivated_stays_deactivated.
+
+(* contrapositive: if a non-create request is accepted, no earlier stage of the anchored history was deactivated *)
+Theorem C04_accepted_means_never_deactivated :
+  forall (pub later unpub : list aop) (c0 : aop) (s : state) (ap : list aop),
+         Forall (fun o : aop => published o = true) pub ->
+         (forall a b : aop, In a pub -> In b later -> op_le a b) ->
+         decorate (pub ++ later) unpub = Accepted ->
+         resolve_full pub [] no_opts = inr (Some (c0, s, ap)) -> deact s = false.
+Proof. exact accepted_means_never_deactivated. Qed.
+Print Assumptions C04_accepted_means_never_deactivated.
+
+(* the decorator accepts exactly when the DID resolves to a state that is not deactivated *)
+Theorem C04_decorator_accepts_iff :
+  forall pub unpub : list aop,
+         decorate pub unpub = Accepted <->
+         (exists (c0 : aop) (s : state) (ap : list aop),
+            resolve_full pub unpub no_opts = inr (Some (c0, s, ap)) /\ deact s = false).
+Proof. exact decorate_accepts_iff. Qed.
+Print Assumptions C04_decorator_accepts_iff.
+
+(* operations that sort behind or level with the stored ones stay behind them (no key_inj) *)
+Theorem C04_sort_stable_for_later_ops :
+  forall l ext : list aop,
+         (forall a b : aop, In a l -> In b ext -> op_le a b) ->
+         sort_ops (l ++ ext) = sort_ops l ++ sort_ops ext.
+Proof. exact sort_ops_app_later_stable. Qed.
+Print Assumptions C04_sort_stable_for_later_ops.
+
+(* non-vacuity: a deactivated history extended by a recover, an update, a create, an operation with empty reveal and one with duplicate coordinates, plus pending operations *)
+Theorem C04_nonvacuous_refused :
+  decorate (it_pub ++ it_later) it_unpub = Refused.
+Proof. exact it_refused. Qed.
+Print Assumptions C04_nonvacuous_refused.
+
+(* the ordering hypothesis is needed: a recover anchored before the deactivate for the same commitment wins *)
+Theorem C04_needs_anchored_after :
+  decorate (it_pub ++ [it_early_rec]) [] = Accepted.
+Proof. exact needs_anchored_after. Qed.
+Print Assumptions C04_needs_anchored_after.
+
+(* the store invariant is needed: published creates are preferred to a create without canonical reference *)
+Theorem C04_needs_published_store :
+  (exists (c0 : aop) (s : state) (ap : list aop),
+            resolve_full it_pub_bad [] no_opts = inr (Some (c0, s, ap)) /\ deact s = true) /\
+         decorate (it_pub_bad ++ [xop 10 Create 22 0 0 110 28 34]) [] = Accepted.
+Proof. exact needs_published_store. Qed.
+Print Assumptions C04_needs_published_store.
